@@ -24,9 +24,10 @@ pub fn all_keys() -> Vec<(bool, u32)> {
 }
 
 pub fn gen_cfg(rng: &mut Rng) -> Cfg {
-    let nmt = if rng.chance(1, 4) { rng.pick(&[0usize, 1, 29, 30]) } else { rng.below(31) as usize };
+    // sizes of the two configured lists: small mostly; now and then none at all, or a count that wraps in a u8
+    let nmt = if rng.chance(1, 40) { rng.pick(&[255usize, 256, 257, 512]) } else if rng.chance(1, 4) { rng.pick(&[0usize, 1, 29, 30]) } else { rng.below(31) as usize };
     let wide = rng.chance(1, 4);
-    let nv = 1 + rng.below(if wide { 16 } else { 4 }) as usize;
+    let nv = if rng.chance(1, 40) { rng.pick(&[0usize, 255, 256, 257, 512]) } else { 1 + rng.below(if wide { 16 } else { 4 }) as usize };
     Cfg {
         addr: rng.addr(),
         msg_types: rng.bytes(nmt),
